@@ -279,6 +279,14 @@ def route(rc):
             okh = True
     if not okh:
         rc.fail(h, h.node, "adjustment validity = X and Y d-separated by the set in the proper back-door graph", construct="adjustment validator")
+    # every (x, y) pair of X x Y must be separated — zip(X, Y) only pairs the i-th x with the i-th y
+    for lp_ in [n for n in walk_no_nested(h.node) if isinstance(n, ast.For) and any(isinstance(c_, ast.Call) and call_name(c_) == "is_dconnected" for c_ in ast.walk(n))]:
+        it = lp_.iter
+        pairs_all = isinstance(it, ast.Call) and call_name(it) == "product" and [dotted(a) for a in it.args] == h.params[1:3]
+        rc.ob(f"adjustment validator iterates {norm(it, 60)} (all pairs of X x Y: {pairs_all})")
+        if not pairs_all:
+            rc.fail(h, lp_, f"is_valid_adjustment_set tests `{norm(it, 50)}`: with several treatment / outcome variables only the i-th x is paired with the i-th y, so a set that leaves "
+                    "another (x, y) pair d-connected in the proper back-door graph is accepted", construct="adjustment validator pairs")
     for s in sites(h.node, lambda n: isinstance(n, ast.Return) and isinstance(n.value, ast.Constant)):
         conn = [pol for t, pol in s.conds if isinstance(t, ast.Call) and call_name(t) == "is_dconnected"]
         if s.node.value.value is False and conn != [True]:
@@ -357,6 +365,8 @@ def defuse(rc):
     _sh.defuse_rule(rc, _sh.anchor_files("C13"))
 
 MUTANTS = [
+    dict(kind="repair", name="adjustment-validator-all-pairs", file=CI, gone="C13.route",
+         old="        for x, y in zip(X, Y):", new="        for x, y in product(X, Y):"),
     dict(kind="break", name="do-removes-outgoing", file=DAGF, expect="C13.surgery",
          old="            parents = list(dag.predecessors(node))\n            for parent in parents:\n                dag.remove_edge(parent, node)",
          new="            parents = list(dag.successors(node))\n            for parent in parents:\n                dag.remove_edge(node, parent)"),
